@@ -24,13 +24,14 @@ RULE = ("small joint degree sequences whose placement space can be enumerated: k
         "with orbits (1,2) / (2,2) / bare edges; stub totals that are not a multiple of the motif size (fast generator, clique/path/star; accepted silently, last group short); exact mode enumerates all prod(n_c!) <= 50000 shuffles (fast and custom generators), "
         "statistical mode draws 4000 (quick) / 20000 (thorough) seeded generations (fast, custom, and network at edge-set level); "
         "non-trivial = >= 3 distinct outcomes under the oracle; distinct = SHA-1 of (configuration, jds, mode)")
+RULE += ("; rounds k-l added: " + 'scale cases: one column with 2 100..12 000 stubs, 21 block-pair counts against uniform matching (chi-square on 20 df, violation above 150)')
 ASSUMPTIONS = ["exact part assumes randomness enters through one random.shuffle per stub list (verified per run from the tap's log); "
                "if that pattern is not observed the exact part is skipped for that case and the statistical part decides",
                "chi-square two-stage protocol (p>=1e-4 held; escalate 4x; p<1e-6 violated) + support check"]
 HEADLINE = ["exact_cases", "exact_generations", "exact_outcomes", "exact_hook_pattern_missing", "stat_cases", "stat_generations", "chi2_tests",
             "chi2_escalations", "two_column_cases", "network_stat_cases", "custom_cases", "nondivisible_cases", "nondivisible_rejected_by_generator", "entropy_cases", "entropy_generations", "reseed_calls_observed", "stat_cases_with_a_callback_that_reseeds_the_random_source"]
-REQUIRED = {"quick": {"exact_generations": 5000, "stat_generations": 20000, "two_column_cases": 5, "exact_or_stat_cases": 30, "entropy_cases": 6},
-            "thorough": {"exact_generations": 100000, "stat_generations": 200000, "two_column_cases": 20, "exact_or_stat_cases": 300, "entropy_cases": 60}}
+REQUIRED = {"quick": {"exact_generations": 5000, "stat_generations": 20000, "two_column_cases": 5, "exact_or_stat_cases": 30, "entropy_cases": 6, "block_pair_tables_tested": 3},
+            "thorough": {"exact_generations": 100000, "stat_generations": 200000, "two_column_cases": 20, "exact_or_stat_cases": 300, "entropy_cases": 60, "block_pair_tables_tested": 15}}
 MAX_INCONCLUSIVE_FRACTION = 0.0
 SHARD_TIMEOUT = {"quick": 600, "thorough": 7200}
 
